@@ -92,6 +92,18 @@ def cases(tier, rng):
                 if nothers == 1:
                     out.append("w%d.%s.%s sock %s mondrop / %s" % (k, t, kind, t, " / ".join(ops)))
                     k += 1
+    # a connection that has gone silent without closing (half-open) is superseded by a new connection announcing the same
+    # identity while a recv is parked: the socket serves the new connection - what it sends is received
+    for t in ("PULL", "SUB", "DEALER", "ROUTER", "REP", "XPUB"):
+        pt = PEER[t]
+        body = [b"", b"anew"] if t == "REP" else [b"\x01anew"] if t == "XPUB" else [b"anew"]
+        for idl in (1, 200):
+            for nothers in (0, 1):
+                ident = W.tok(b"H" * idl)
+                ops = (["attach c %s" % pt] if nothers else []) + ["attach a %s id=%s" % (pt, ident), "recvp 1", "recvp 2",
+                       "attach b %s id=%s" % (pt, ident), "feed b " + W.tok(W.msg(body)), "recv"]
+                out.append("t%d.%s sock %s / %s" % (k, t, t, " / ".join(ops)))
+                k += 1
     # an orderly close between messages (which the socket does not report: the listed finding) FOLLOWED by a failing write:
     # that failure is an observation, after which the peer is forgotten and released like any other
     for t in ("ROUTER", "DEALER"):
@@ -172,6 +184,12 @@ def judge(line, obs, orc):
         return "recv spins or hangs: " + obs[:80]
     cid = line.split()[0]
     t, po = S.pair_ops_obs(line, obs)
+    if cid.startswith("t"):
+        last = [tk for op, tk in po if op[0] == "recv"][-1]
+        if not (last.startswith("r=ok:") and last.endswith("616e6577")):
+            return ("a connection that superseded a silent one under the same identity (while a recv was parked) is not served: "
+                    "its message was not returned: " + str(last)[:80])
+        return None
     others = [op[1] for op, tk in po if op[0] == "attach" and op[1] != "a"]
     att_a = [tk for op, tk in po if op[0] == "attach" and op[1] == "a"][0]
     registered = att_a.startswith("att:a=ok")
